@@ -65,6 +65,7 @@ STUBS = [
 ]
 ASSUMPTIONS = [
     "sigma (std_discrete) enumerated: {1, 2} (quick), {1, 2, 3} (thorough); the kernel taps are then concrete",
+    "padding configurations (each of the four arrays given / None): all 16 for sigma=1 and 8 of them (none, all, per axis, crosswise, single) for sigma=2 in the quick tier; all 16 for every sigma in the thorough tier",
     "exactly one axis of the (a,b,c) parameter array has extent 1 (call-site check in ParameterTransformation.get_input_shape for _all_arrays_2d transforms), the two others are >= 2; its position is enumerated",
     "padding arrays, when given, have the documented shapes (ny,) for axis 0 and (nx,) for axis 1",
     "modular composition: lemma K and lemma C (proved for an arbitrary kernel with K's properties and an arbitrary input array) are used as callee contracts inside the run of the real _apply_smoothing; their preconditions are proved at the call site (obligations P/*), their guarantees are attached to the stub results only inside the central window",
@@ -671,6 +672,9 @@ def _shim_vs_real(seed):
 # ---------------------------------------------------------------------------------------
 
 ALL_COMBOS = list(itertools.product((False, True), repeat=4))
+# quick-tier subset for sigma = 2 (the padding code does not depend on sigma beyond the pad width): none, all,
+# each axis alone, crosswise pairs, single arrays
+HALF_COMBOS = [c for c in ALL_COMBOS if _combo_label(c) in ("nnnn", "AAAA", "AAnn", "nnAA", "AnnA", "nAAn", "Annn", "nnnA")]
 
 
 def _no_exception(c, e):
@@ -685,14 +689,14 @@ def tasks(tier, seed):
     for sg in sigmas:
         out[f"K/sigma{sg}"] = Task(_lemma_K(sg), extra_patch=kpatch, on_exception=_no_exception)
         for s in range(3):
-            for combo in ALL_COMBOS:
+            for combo in ALL_COMBOS if (tier == "thorough" or sg == 1) else HALF_COMBOS:
                 out[f"P/sigma{sg}/s{s}/{_combo_label(combo)}"] = Task(_lemma_P(sg, s, combo), extra_patch=kpatch, max_paths=64, on_exception=_no_exception)
         for which in ("linear", "const", "range_lo", "range_hi", "mirror0", "mirror1"):
             out[f"C/sigma{sg}/{which}"] = Task(_lemma_C(sg, which), extra_patch=kpatch, on_exception=_no_exception)
     # end to end
     for sg in sigmas:
         for s in range(3):
-            for combo in ALL_COMBOS if (tier == "thorough" or sg == 1) else [ALL_COMBOS[0], ALL_COMBOS[-1], ALL_COMBOS[5]]:
+            for combo in ALL_COMBOS if tier == "thorough" else HALF_COMBOS if sg == 1 else [ALL_COMBOS[0], ALL_COMBOS[-1], ALL_COMBOS[5]]:
                 out[f"E/sym/sigma{sg}/s{s}/{_combo_label(combo)}"] = Task(_end_to_end_symbolic(sg, s, combo), extra_patch=kpatch, max_paths=64, on_exception=_no_exception)
     small = []
     dims = [(2, 3), (4, 2)] if tier == "quick" else [(2, 2), (2, 3), (3, 2), (3, 3), (4, 3), (2, 5), (7, 2), (5, 6)]
